@@ -417,6 +417,12 @@ fn leaf_load(ty: &'static str, content: Cow<[u8]>, ext: &str) -> Result<LeafVal,
         }
         None => {}
     }
+    // a decoding error whose *type* is io::Error (a loader that parses through io::Read): still a decoding error
+    if content.starts_with(b"!bad-io") || content.starts_with(b"!bad-nf") {
+        detsim::count("fault.undecodable_content_io_typed_error");
+        let kind = if content.starts_with(b"!bad-nf") { io::ErrorKind::NotFound } else { io::ErrorKind::InvalidData };
+        return Err(Box::new(io::Error::new(kind, format!("cannot decode {}", lossy(&content)))));
+    }
     if content.starts_with(b"!bad") {
         detsim::count("fault.undecodable_content");
         return Err(Box::new(DecodeError(lossy(&content))));
